@@ -710,3 +710,24 @@ Proof.
     + destruct (A' a rest Hcin) as (_ & P'). destruct (A a rest Hcin) as (_ & P).
       rewrite P', P by auto. reflexivity.
 Qed.
+
+(* ---------------------------------------------------------------- the shortcut as a whole *)
+Theorem edgeless_shortcut n cells (cls : nat -> nat) (old : dset) :
+  cells_ok n cells -> length old = n ->
+  (forall x y, x < n -> y < n -> (cls x = cls y <-> same_cell cells x y)) ->
+  let gens := edgeless_gens n cells in
+  let ds := edgeless_ds old cells in
+  (forall g, In g gens -> Aut n (fun _ _ => false) cls g) /\
+  (forall g, generated n gens g <-> Aut n (fun _ _ => false) cls g) /\
+  (forall x y, x < n -> y < n -> (orbit n gens x y <-> same_cell cells x y)) /\
+  length ds = n /\ WF ds /\
+  (forall x y, x < n -> y < n -> (same ds x y <-> same_cell cells x y)) /\
+  (forall old', length old' = n -> edgeless_ds old' cells = ds).
+Proof.
+  intros Hc Hl Hcls gens ds.
+  destruct (edgeless_ds_spec n cells old Hc Hl) as (L & W & S & I).
+  split; [|split; [|split; [|split; [|split; [|split]]]]]; auto.
+  - intros g Hg. apply (proj1 (CP_iff_Aut n cells cls g Hcls)). apply gens_CP; auto.
+  - intros g. subst gens. rewrite (edgeless_generated_iff n cells Hc g). apply CP_iff_Aut; auto.
+  - intros x y Hx Hy. apply edgeless_orbit_iff; auto.
+Qed.
